@@ -1,24 +1,26 @@
-//! A flag that can be raised to wake a task.
+//! A flag that can be raised to wake tasks.
 //!
-//! Copied wholesale from <https://docs.rs/futures/latest/futures/task/struct.AtomicWaker.html>
-//! unfortunately not aware of crated version!
+//! Based on <https://docs.rs/futures/latest/futures/task/struct.AtomicWaker.html>, but keeps one
+//! waker per waiting task: a flag can be cloned and awaited from several tasks at once (every
+//! ticket of a job shares the job's "gone" flag, and tickets themselves are `Clone`).
 
 use std::{
+	mem::take,
 	pin::Pin,
 	sync::{
 		atomic::{AtomicBool, Ordering::Relaxed},
-		Arc,
+		Arc, Mutex, PoisonError,
 	},
 };
 
 use futures::{
 	future::Future,
-	task::{AtomicWaker, Context, Poll},
+	task::{Context, Poll, Waker},
 };
 
 #[derive(Debug)]
 struct Inner {
-	waker: AtomicWaker,
+	wakers: Mutex<Vec<Waker>>,
 	set: AtomicBool,
 }
 
@@ -34,7 +36,7 @@ impl Default for Flag {
 impl Flag {
 	pub fn new(value: bool) -> Self {
 		Self(Arc::new(Inner {
-			waker: AtomicWaker::new(),
+			wakers: Mutex::new(Vec::new()),
 			set: AtomicBool::new(value),
 		}))
 	}
@@ -45,7 +47,10 @@ impl Flag {
 
 	pub fn raise(&self) {
 		self.0.set.store(true, Relaxed);
-		self.0.waker.wake();
+		let wakers = take(&mut *self.0.wakers.lock().unwrap_or_else(PoisonError::into_inner));
+		for waker in wakers {
+			waker.wake();
+		}
 	}
 }
 
@@ -58,14 +63,18 @@ impl Future for Flag {
 			return Poll::Ready(());
 		}
 
-		self.0.waker.register(cx.waker());
+		let mut wakers = self.0.wakers.lock().unwrap_or_else(PoisonError::into_inner);
 
-		// Need to check condition **after** `register` to avoid a race
-		// condition that would result in lost notifications.
+		// Need to check condition **under the lock** to avoid a race condition that would result
+		// in lost notifications: `raise()` sets the flag before it locks to drain the wakers.
 		if self.0.set.load(Relaxed) {
-			Poll::Ready(())
-		} else {
-			Poll::Pending
+			return Poll::Ready(());
 		}
+
+		if !wakers.iter().any(|waker| waker.will_wake(cx.waker())) {
+			wakers.push(cx.waker().clone());
+		}
+
+		Poll::Pending
 	}
 }
